@@ -292,6 +292,44 @@ func (s *SessionStore) Remove(ctx context.Context, session *Session) {
 	instrumentDecreaseSessionGauge(session.AppKey)
 }
 
+// RemoveIfEmpty removes the session from the store when it has no participant
+// left. It reports whether this call removed the session, so that of several
+// concurrent last departures exactly one tears the session down.
+func (s *SessionStore) RemoveIfEmpty(ctx context.Context, session *Session) bool {
+	s.initOnce.Do(s.init)
+	s.mutex.Lock()
+	defer s.mutex.Unlock()
+
+	id := s.GlobalSessionID(session.ID)
+	if s.sessions[id] != session || session.ParticipantCount() != 0 {
+		return false
+	}
+
+	delete(s.sessions, id)
+	session.Close()
+
+	s.ids.Reuse(session.ID)
+
+	instrumentDecreaseSessionGauge(session.AppKey)
+	return true
+}
+
+// AddParticipant adds the participant to the session unless the session has
+// been removed from the store in the meantime. It reports whether the
+// participant was added.
+func (s *SessionStore) AddParticipant(session *Session, p *Participant) bool {
+	s.initOnce.Do(s.init)
+	s.mutex.RLock()
+	defer s.mutex.RUnlock()
+
+	if s.sessions[s.GlobalSessionID(session.ID)] != session {
+		return false
+	}
+
+	session.AddParticipant(p)
+	return true
+}
+
 func (s *SessionStore) GetByGlobalID(v string) (*Session, bool) {
 	s.initOnce.Do(s.init)
 
